@@ -82,6 +82,11 @@ pub struct Interpreter<TStdlib: Stdlib, TStdIn: Input, TStdOut: Printer, TLpt1: 
 
     def_seg: Option<usize>,
 
+    /// For every active function/sub call (and the global module), the state of the VM
+    /// stacks at the start of the statement being executed. Restored when an error is handled,
+    /// because the failing statement can leave partial results on the stacks.
+    statement_snapshots: Vec<StatementSnapshot>,
+
     #[cfg(feature = "verif")]
     verif_monitor: Option<Box<dyn super::verif::Monitor>>,
 
@@ -190,6 +195,12 @@ impl<TStdlib: Stdlib, TStdIn: Input, TStdOut: Printer, TLpt1: Printer> Interpret
             statement_addresses,
         } = instruction_generator_result;
         let mut i: usize = 0;
+        let mut is_statement_start: Vec<bool> = vec![false; instructions.len()];
+        for address in &statement_addresses {
+            if let Some(flag) = is_statement_start.get_mut(*address) {
+                *flag = true;
+            }
+        }
         let mut ctx: InterpretOneContext = InterpretOneContext {
             halt: false,
             error_handler: ErrorHandler::None,
@@ -203,6 +214,9 @@ impl<TStdlib: Stdlib, TStdIn: Input, TStdOut: Printer, TLpt1: Printer> Interpret
             }
             let instruction = &instructions[i].element;
             let pos = instructions[i].pos();
+            if is_statement_start[i] {
+                self.take_statement_snapshot();
+            }
             match self.interpret_one(i, instruction, pos, &mut ctx) {
                 Ok(_) => match ctx.opt_next_index.take() {
                     Some(next_index) => {
@@ -216,12 +230,14 @@ impl<TStdlib: Stdlib, TStdIn: Input, TStdOut: Printer, TLpt1: Printer> Interpret
                     self.last_error_code = Some(e.err().get_code());
                     match ctx.error_handler {
                         ErrorHandler::Address(handler_address) => {
+                            self.restore_statement_snapshot();
                             // store error address, so we can call RESUME and RESUME NEXT from within the error handler
                             self.context.push_error_handler_context();
                             self.last_error_address = Some(i);
                             i = handler_address;
                         }
                         ErrorHandler::Next => {
+                            self.restore_statement_snapshot();
                             i = ctx.nearest_statement_finder.find_next(i);
                         }
                         ErrorHandler::None => {
@@ -284,6 +300,7 @@ impl<TStdlib: Stdlib, TStdIn: Input, TStdOut: Printer, TLpt1: Printer>
             print_state: PrintState::new(),
             data_segment: DataSegment::default(),
             def_seg: None,
+            statement_snapshots: vec![StatementSnapshot::default()],
             #[cfg(feature = "verif")]
             verif_monitor: None,
             #[cfg(feature = "verif")]
@@ -449,10 +466,16 @@ impl<TStdlib: Stdlib, TStdIn: Input, TStdOut: Printer, TLpt1: Printer>
             }
             Instruction::PushRet(address) => {
                 self.return_address_stack.push(*address);
+                // the function/sub that is being called gets its own statement snapshot
+                self.statement_snapshots.push(StatementSnapshot::default());
+                self.take_statement_snapshot();
             }
             Instruction::PopRet => {
                 let address = self.return_address_stack.pop().unwrap();
                 ctx.opt_next_index = Some(address);
+                if self.statement_snapshots.len() > 1 {
+                    self.statement_snapshots.pop();
+                }
             }
             Instruction::GoSub(address_or_label) => {
                 self.go_sub_address_stack.push(i);
@@ -635,6 +658,36 @@ impl<TStdlib: Stdlib, TStdIn: Input, TStdOut: Printer, TLpt1: Printer>
         Ok(())
     }
 
+    /// Remembers the state of the VM stacks at the start of a statement.
+    fn take_statement_snapshot(&mut self) {
+        let snapshot = StatementSnapshot {
+            value_stack: self.value_stack.len(),
+            register_stack: self.register_stack.len(),
+            var_path_stack: self.var_path_stack.len(),
+            by_ref_stack: self.by_ref_stack.len(),
+            states: self.context.states_len(),
+            stacktrace: self.stacktrace.clone(),
+        };
+        if let Some(last) = self.statement_snapshots.last_mut() {
+            *last = snapshot;
+        }
+    }
+
+    /// Brings the VM stacks back to the state they had at the start of the statement
+    /// that failed, dropping the partial results of that statement. The stacktrace
+    /// also needs to be restored, because it is drained into the error.
+    fn restore_statement_snapshot(&mut self) {
+        if let Some(snapshot) = self.statement_snapshots.last() {
+            self.value_stack.truncate(snapshot.value_stack);
+            self.register_stack.truncate(snapshot.register_stack.max(1));
+            self.var_path_stack.truncate(snapshot.var_path_stack);
+            self.by_ref_stack.truncate(snapshot.by_ref_stack);
+            self.context.truncate_states(snapshot.states);
+            self.stacktrace = snapshot.stacktrace.clone();
+            self.function_result = None;
+        }
+    }
+
     /// Gets the instruction address where the most recent error occurred.
     /// Clears that address and also clears the most recent error code.
     fn take_last_error_address(&mut self) -> Result<usize, RuntimeError> {
@@ -709,6 +762,17 @@ impl<TStdlib: Stdlib, TStdIn: Input, TStdOut: Printer, TLpt1: Printer>
             self.verif_monitor = Some(monitor);
         }
     }
+}
+
+/// The sizes of the VM stacks at the start of a statement.
+#[derive(Default)]
+struct StatementSnapshot {
+    value_stack: usize,
+    register_stack: usize,
+    var_path_stack: usize,
+    by_ref_stack: usize,
+    states: usize,
+    stacktrace: Vec<Position>,
 }
 
 /// Context available to the execution of a single instruction.
